@@ -15,31 +15,28 @@
                         [admin_only = true]; [shutdown_tx.send(())] (every receiver that exists now
                         sees one [()]: receivers are created at accept, line 271)          = Sigint
                         -- from here on the client tasks (other worker threads) react --
-                        [drain_tx.send(0).await] (a 0 is QUEUED behind whatever is in flight — and
-                        behind the -1 of any client that has already reacted to the broadcast);
+                        [drain_tx.try_send(0)] (a 0 is QUEUED behind whatever is in flight — and
+                        behind the -1 of any client that has already reacted to the broadcast; on a
+                        full channel it is dropped: never wait on a channel this loop reads);
                         spawn the timer task: [interval(shutdown_timeout)], two ticks (the first is
                         immediate), then [exit_tx.send(()).await]                       = SigintQ, TimerFire
                The arm is NOT atomic with respect to the clients: the model splits it at the point
                where the broadcast has been sent (Sigint / SigintQ, [mid_sigint] in between).
-               ([tokio::time::interval] panics on a zero period: with [shutdown_timeout = 0] the
-                timer task dies and never sends: [tzero] below; config.rs accepts 0)
+               ([tokio::time::interval] panics on a zero period; config.rs rejects shutdown_timeout = 0
+                since commit 6453b21: [tzero = true] is a mutant configuration)
       257-260  SIGTERM: [break]                                                         = Sigterm
       262-320  accept : [shutdown_tx.subscribe()], [drain_tx.clone()], spawn
                         [client_entrypoint(.., admin_only, ..)] — the CURRENT value of
                         [admin_only] is passed BY VALUE ([gate] of the client)          = Accept
       322-324  [exit_rx.recv()] : [break]                                               = ExitDeliver
-      326-333  [drain_rx.recv()]: [total_clients += ping;
-                        if total_clients == 0 && admin_only { exit_tx.send(()).await }]  = DrainDeliver
-               The exit channel has capacity ONE and its only receiver is this very loop: if a
-               message is already buffered (sent by an earlier zero or by the timer) and not yet
-               received — [select!] picks a ready arm at random, so the drain arm can run again
-               before the exit arm — this second [send().await] never completes and the loop never
-               polls anything again: [wedged].  Reached e.g. when a -1 that was in flight when
-               SIGINT arrived brings the count to zero and the queued 0 is delivered next, or when
-               a cancel request (+1, -1) follows the zero.
-               (The SIGINT arm has the same shape: [drain_tx.send(0).await] on a FULL drain channel —
-               2048 unreceived +1/-1, e.g. a burst of connections or cancel requests — waits for a
-               receiver that is the suspended loop itself: wedged before the timer task exists.)
+      326-338  [drain_rx.recv()]: [total_clients += ping;
+                        if total_clients == 0 && admin_only { exit_tx.try_send(()) }]     = DrainDeliver
+               The exit channel has capacity ONE and its only receiver is this very loop; [select!] picks
+               a ready arm at random, so the drain arm can see zero again before the exit arm has run
+               (a -1 that overtook the 0 of SIGINT, a cancel request's +1/-1): the second message is
+               DROPPED ([try_send]), the first one is still there.
+               Until commit 74943d0 both sends were [send().await]: the loop then waited for ever on a
+               channel only it reads ([wedged]); that behaviour is kept as the mutant [blk = true].
       337-339  after the loop the runtime is dropped and the process exits               = [exited]
     src/client.rs:131-333 [client_entrypoint]: startup (the client is ANSWERED: AuthenticationOk ..
                           ReadyForQuery, = AuthDone); only then, for a client that is not admin,
